@@ -27,6 +27,7 @@ type Contract struct {
 	Modifies   []string // nil: derived; []{"nothing"}; key globs
 	Loops      map[int]*LoopSpec
 	PanicsIff  *Expr
+	Decreases  *Expr // recursion measure: non-negative on entry, strictly smaller at every direct recursive call
 	Inline     bool
 	Trusted    bool // contract is assumed: body is not verified (listed)
 	Uses       []*Expr
@@ -79,7 +80,7 @@ type Lemma struct {
 	File      string
 }
 
-var clauseKW = regexp.MustCompile(`^(requires|ensures|modifies|loop|panics_iff|inline|trusted|use|induction|props|func|spec|pred|lemma|extern|devirt|at|ifacecontract|keeps)\b`)
+var clauseKW = regexp.MustCompile(`^(requires|ensures|modifies|loop|panics_iff|inline|trusted|use|induction|props|func|spec|pred|lemma|extern|devirt|at|ifacecontract|keeps|decreases)\b`)
 
 // parseContracts reads every zz_verif_contracts*.go file of the loaded packages.
 func (e *Engine) parseContracts(pkgs []*packages.Package) error {
@@ -245,7 +246,7 @@ func (e *Engine) parseContractLines(pkg *types.Package, file string, lines []str
 			curLemma = &Lemma{Name: strings.TrimSpace(rest[:i]), Pkg: pkg, Params: parseParams(rest[i+1 : j]), File: file, Step: 1}
 			e.lemmas = append(e.lemmas, curLemma)
 			cur = nil
-		case "requires", "ensures", "panics_iff", "use":
+		case "requires", "ensures", "panics_iff", "use", "decreases":
 			x, err := mk(rest, cl.line)
 			if err != nil {
 				return err
@@ -257,6 +258,8 @@ func (e *Engine) parseContractLines(pkg *types.Package, file string, lines []str
 				cur.Ensures = append(cur.Ensures, x)
 			case cur != nil && kw == "panics_iff":
 				cur.PanicsIff = x
+			case cur != nil && kw == "decreases":
+				cur.Decreases = x
 			case cur != nil && kw == "use":
 				cur.Uses = append(cur.Uses, x)
 			case curLemma != nil && kw == "requires":
